@@ -153,8 +153,19 @@ func execDialog(lines []string) string {
 	for _, lh := range lines {
 		b, _ := hexDecode(lh)
 		line := string(b)
-		if guard(func() { uci.VerifHandleInput(line) }) {
-			panicked = true
+		// the handler runs in its own goroutine so that a handler that never returns (a lock that is never
+		// released) is noticed instead of hanging the harness
+		res := make(chan bool, 1)
+		go func() { res <- guard(func() { uci.VerifHandleInput(line) }) }()
+		select {
+		case pn := <-res:
+			if pn {
+				panicked = true
+			}
+		case <-time.After(5 * time.Second):
+			hung = true
+		}
+		if panicked || hung {
 			break
 		}
 		// let a started search finish (sequential mode)
@@ -181,6 +192,7 @@ func execDialog(lines []string) string {
 		return "out=PANIC p.nopanic=0"
 	}
 	if hung {
+		uci.VerifNewGame() // leave the stuck game object behind
 		return "out=HUNG p.nopanic=1 p.answered=0"
 	}
 	return "out=" + classifyOut(out) + " p.nopanic=1 p.answered=1"
